@@ -21,6 +21,7 @@ func init() {
 		Rule{ID: "R13b", Doc: "one buffered reader per connection", Floor: 2, Run: r13b},
 		Rule{ID: "R13c", Doc: "over-limit => REFUSED; counter balanced", Floor: 4, Run: r13c},
 		Rule{ID: "R13d", Doc: "gnet partial-read state invariants", Floor: 10, Run: r13d},
+		Rule{ID: "R20a", Doc: "a response buffer is not written to the stream after it was released (a recycled buffer corrupts the frame; shared with C20)", Floor: 60, Run: r20a},
 	)
 	reg("C19", "Structural necessary conditions of single-flight, non-delaying prefetch, decided for all paths: "+
 		"(R19a) the refresh goroutine is started only on the `reserve(key) == true` edge, exactly once, and calls done(key) with the same key on every path; reserve is a test-and-set and done a delete, both under the mutex, and nothing else writes the in-flight set; "+
@@ -34,6 +35,7 @@ func init() {
 		Rule{ID: "R19d", Doc: "prefetch window", Floor: 1, Run: r19d},
 		Rule{ID: "R19e", Doc: "in-flight key components", Floor: 4, Run: r19e},
 		Rule{ID: "R08a", Doc: "stores only on success (shared with C08)", Floor: 4, Run: r08a},
+		Rule{ID: "R08c", Doc: "a non-success refresh never displaces a stored entry (set-if-absent for every rcode but NOERROR; shared with C08)", Floor: 5, Run: r08c},
 	)
 }
 
